@@ -9,8 +9,8 @@ import subprocess
 from multiprocessing import Pool
 
 HOST = "hh"
-BASES = ["p", "q", "d/r", "d/e/s", "sp ace", "uni-ü", "q'uote", "-dash", "dot.file.ext", "d/new\nline"]
-CONTENT = {1: b"one\n", 2: b"two two\n", 3: b"three\n" * 3, 4: b"", 5: b"0123456789abcdef" * 20000}
+BASES = ["p", "q", "d/r", "d/m", "d/z", "d/e/s", "sp ace", "uni-ü", "q'uote", "-dash", "dot.file.ext", "d/new\nline"]
+CONTENT = {1: b"one-1\n", 2: b"two-2\n", 3: b"three\n" * 3, 4: b"", 5: b"0123456789abcdef" * 20000}
 BY_BYTES = {v: k for k, v in CONTENT.items()}
 CFG = {}
 
@@ -108,7 +108,12 @@ def run_history(job):
                     os.rename(ap, ap + ".bak")
                 else:
                     open(ap, "wb").write(bytes(rng.randrange(256) for _ in range(100)))
-        elif r < 0.69:
+        elif r < 0.72:
+            # the user removes a whole sub-directory on one side (rm -r)
+            dirs = [x for x in os.listdir(side) if os.path.isdir(os.path.join(side, x))]
+            if dirs:
+                shutil.rmtree(os.path.join(side, rng.choice(dirs)), ignore_errors=True)
+        elif r < 0.75:
             # file / directory clash: a directory where the other side has (or will have) a file
             name = rng.choice(bases)
             p = os.path.join(side, name)
